@@ -12,6 +12,8 @@ elif base.startswith("m4_"):        # fourth wave: suffix f
     name = base[3:] + "_f"
 elif base.startswith("m5_"):        # fifth wave: suffix g
     name = base[3:] + "_g"
+elif base.startswith("m6_"):        # sixth wave: suffix h
+    name = base[3:] + "_h"
 else:
     name = base.replace("mut_", "")
 pid = name.split("_")[0]
